@@ -167,6 +167,7 @@ type Interp struct {
 	randStates     map[*Loc]*Term
 	stubbed        map[string]bool
 	stubRet        map[string]Value
+	keyPairs       map[string][]*Term
 	sigFacts       []sigFact
 	randPre        []*Term // pre-allocated math/rand draws (nd.RandInts)
 	abstractArith  bool    // nd.AbstractArith(): see Solver.Abstract
@@ -223,6 +224,7 @@ func (in *Interp) resetPath(prefix []int) {
 	in.randStates = nil
 	in.stubbed = nil
 	in.stubRet = nil
+	in.keyPairs = nil
 	in.sigFacts = nil
 }
 
